@@ -808,7 +808,8 @@ class Grid2D(Structure):
             origin=self.origin,
         )
 
-        return Grid2D.from_mask(
+        return Grid2D(
+            values=self.native,
             mask=mask,
             over_sampling=self.over_sampling,
         )
